@@ -216,6 +216,7 @@ def work(task):
         if oo[0] != 'ok': continue
         stats['statements'] += 1
         check_spans(oo[2]['rule'], text, mode, 'wide', stats, bad)
+      if o[0][0] == 'ok' and o[1][0] == 'ok' and parsers.strip_heritage(o[0][2]['rule']) == parsers.strip_heritage(o[1][2]['rule']): compare_spans(o[0][2]['rule'], o[1][2]['rule'], text, 'wide', stats, bad)
   else:
     # statements of every .l file of the repository (imported rules are anchored in the file they come from)
     corpus = set()
@@ -232,6 +233,7 @@ def work(task):
   if task[0] == 'noise' and stats['statements']:
     for mode, oo in zip(('py', 'cpp'), o):
       check_spans(oo[2]['rule'], base, mode, 'generated', stats, bad)
+    if parsers.strip_heritage(o[0][2]['rule']) == parsers.strip_heritage(o[1][2]['rule']): compare_spans(o[0][2]['rule'], o[1][2]['rule'], base, 'generated', stats, bad)
   by = {}
   for v in viol: by.setdefault(v['sig'], []).append(v)
   out = []
@@ -337,6 +339,27 @@ def check_spans(rules, text, mode, where, stats, bad, imported=False, corpus=Non
     if her.strip().startswith('@CompileAsUdf('): continue     # rule synthesised by `-->`, it has no source text of its own
     if her.strip() not in {s.strip() for s in stmts} and not any(her.strip() in s for s in stmts):
       bad('span-not-anchored-in-a-statement/%s' % mode, 'heritage %r is not a statement of the program' % her[:80], text, where)
+
+
+def compare_spans(py_rules, cpp_rules, text, where, stats, bad):
+  """The two parsers build the same tree, so they must attach the same span (statement, start, stop) to the same node: the Python parser's
+  spans are slices of the text by construction, the C++ parser's come through a byte-offset to character-offset conversion."""
+  def walk(node, acc):
+    if isinstance(node, list):
+      for x in node: walk(x, acc)
+    elif isinstance(node, dict):
+      for k in sorted(node, key=str):
+        if k == 'expression_heritage': acc.append(node[k])
+        else: walk(node[k], acc)
+    return acc
+  a, b = walk(py_rules, []), walk(cpp_rules, [])
+  if len(a) != len(b): return
+  for x, y in zip(a, b):
+    stats['spans_checked'] += 1
+    try: kx, ky = (str(x.heritage), x.start, x.stop), (str(y.heritage), y.start, y.stop)
+    except AttributeError: continue
+    if kx != ky:
+      bad('span-differs-between-parsers', 'python [%d:%d]=%r, c++ [%d:%d]=%r' % (kx[1], kx[2], str(x)[:50], ky[1], ky[2], str(y)[:50]), text, where); return
 
 
 def coverage(ctx, merged):
